@@ -189,7 +189,8 @@ def census(ctx, chk, g, reach, label):
                 if cls != "may-panic":
                     continue
             nsites += 1
-            if covered(full, s["kind"], s["detail"]):
+            is_capacity = s["kind"] == "call" and any(w_ in s["detail"] for w_ in ("with_capacity", "::reserve"))
+            if not is_capacity and covered(full, s["kind"], s["detail"]):       # the evaluator does not model `capacity overflow`
                 chk.ok(R2, "%s:%s:%s:auto-eval" % (short(full), s["kind"], s["detail"][:40]))
                 continue
             file = s["file"]
